@@ -107,7 +107,9 @@ func handle(p []string) (res string) {
 	case "hist":
 		return opHist(p[1:])
 	case "frame":
-		return opFrame(p[1:])
+		return opFrame(p[1:], true)
+	case "frame0":
+		return opFrame(p[1:], false)
 	case "roundtrip":
 		return opRoundtrip(p[1:])
 	case "unmbytes":
